@@ -5,6 +5,7 @@ package main
 import (
 	"fmt"
 	"go/types"
+	"strconv"
 	"strings"
 
 	"golang.org/x/tools/go/ssa"
@@ -170,7 +171,17 @@ func c05Wait(c *Ctx) {
 			rs := eventsWhere(p, func(e *Event) bool {
 				return isCall(e, spec.reserve) || isCall(e, "acquirePermits") || isCall(e, "ReservePermits")
 			})
-			if len(rs) != 1 || rs[0].Method != spec.reserve {
+			// ReservePermits(k) written out: acquirePermits(k, -1) on the limiter's stats
+			writtenOut := len(rs) == 1 && spec.reserve == "ReservePermits" && rs[0].Method == "acquirePermits" && func() bool {
+				a := lastArgs(rs[0], 2)
+				k := a[0]
+				if k.Op == "app" && strings.HasPrefix(k.Aux, "conv:") && len(k.Args) == 1 {
+					k = k.Args[0]
+				}
+				m, isC := a[1].IsConstInt()
+				return k == ev.Param(fn, "permits") && isC && m == -1
+			}()
+			if !writtenOut && (len(rs) != 1 || rs[0].Method != spec.reserve) {
 				bad("must touch the limiter's state exactly once, through " + spec.reserve + " (a cancelled or refused acquire must not hand permits back or take more: later reservations already depend on it)")
 				continue
 			}
@@ -344,6 +355,9 @@ func c05Delegation(c *Ctx) {
 				if a == triU || a != b {
 					good = false
 				}
+			}
+			if !good && flatDelegation(c, sp.fn) {
+				good = true
 			}
 			if !good {
 				ok = false
@@ -804,6 +818,10 @@ func rulesC13(c *Ctx) {
 	// "the configured envelope" is the configuration at Build time: configuring the builder further must not move the
 	// caps, jitter or max duration of a policy already built
 	buildCopiesConfig(c)
+	// "jitter never accumulates into later backoff delays … the k-th consecutive backoff delay": the last delay is
+	// per-execution state of an executor no other execution shares
+	c.Rule("fresh-executors")
+	c01Self(c)
 }
 
 func c13GetDelay(c *Ctx) {
@@ -1268,4 +1286,70 @@ func c13Builders(c *Ctx) {
 			c.Ok(c.fn(fn), c.P.FuncPos(fn), "maxRetries = maxAttempts−1, or -1 for unlimited")
 		}
 	}
+}
+
+// flatDelegation: the non-blocking permit API method fn, with every function of the package evaluated in place, is
+// exactly one request to the limiter's stats with the documented (permits, max wait) and returns its answer (Try*
+// compare it with 0) — whatever chain of the sibling methods it goes through, or none.
+func flatDelegation(c *Ctx, name string) bool {
+	type want struct {
+		k, mw string // parameter name, or "#n" for the constant n
+		ret   string
+	}
+	table := map[string]want{
+		"ratelimiter.(*rateLimiter).ReservePermit":     {"#1", "#-1", "same"},
+		"ratelimiter.(*rateLimiter).ReservePermits":    {"permits", "#-1", "same"},
+		"ratelimiter.(*rateLimiter).TryAcquirePermit":  {"#1", "#0", "eq0"},
+		"ratelimiter.(*rateLimiter).TryAcquirePermits": {"permits", "#0", "eq0"},
+		"ratelimiter.(*rateLimiter).TryReservePermit":  {"#1", "maxWaitTime", "same"},
+		"ratelimiter.(*rateLimiter).TryReservePermits": {"requestedPermits", "maxWaitTime", "same"},
+	}
+	w, known := table[name]
+	fn := c.P.Func(name)
+	if !known || fn == nil {
+		return false
+	}
+	ev := NewEvaluator(c.P, EvalConfig{DecideReturns: true, Inline: func(f *ssa.Function, d int) bool {
+		return c.P.InScope[f] && f.Pkg == fn.Pkg && d < 5
+	}})
+	ts := ev.TS
+	ps := ev.Run(fn)
+	if ev.Err != nil || len(ps) == 0 {
+		return false
+	}
+	matches := func(t *T, spec string) bool {
+		if t.Op == "app" && strings.HasPrefix(t.Aux, "conv:") && len(t.Args) == 1 {
+			t = t.Args[0]
+		}
+		if strings.HasPrefix(spec, "#") {
+			n, err := strconv.Atoi(spec[1:])
+			k, isC := t.IsConstInt()
+			return err == nil && isC && k == int64(n)
+		}
+		pt := ev.Param(fn, spec)
+		return pt != nil && t == pt
+	}
+	for _, p := range ps {
+		calls := eventsWhere(p, func(e *Event) bool { return e.Kind == EvCall && !e.Pure })
+		if p.Exit != ExitReturn || len(calls) != 1 || calls[0].Method != "acquirePermits" || len(calls[0].Args) < 2 {
+			return false
+		}
+		a := lastArgs(calls[0], 2)
+		if !matches(a[0], w.k) || !matches(a[1], w.mw) {
+			return false
+		}
+		switch w.ret {
+		case "same":
+			if p.Rets[0] != calls[0].Res[0] {
+				return false
+			}
+		case "eq0":
+			x := p.State.Facts.Truth(ts, p.Rets[0])
+			y := p.State.Facts.Truth(ts, ts.Cmp("==", calls[0].Res[0], ts.LinConst(0, calls[0].Res[0].Typ)))
+			if x == triU || x != y {
+				return false
+			}
+		}
+	}
+	return true
 }
